@@ -107,6 +107,7 @@ JudgeEncapQ(e, s, q, crc) ==
                      /\ r.ctx.id = e.fragid
                      /\ r.ctx.sent = w.plen
       crcOk  == needCrc => (crc.key = <<e.pdu, tl, T, w.label>> /\ r.ctx.crc = crc.val)
+      WFT    == IF r.t = "completed" THEN <<"C06", "C01">> ELSE <<"C06", "C02", "C11">>
       verdicts ==
            V(r.t # "panic", <<"C09">>, "Tx.NoPanic")
         \cup V(r.t = "err" => (e.state_same /\ e.buf_same), <<"C09">>, "Tx.ErrAtomic")
@@ -117,9 +118,11 @@ JudgeEncapQ(e, s, q, crc) ==
         \cup V(ok => Len(wire) = r.len, <<"C06">>, "Tx.LenWithinBuffer")
         \cup V(ok => e.tail_ok, <<"C06">>, "Tx.TailUntouched")
         \cup V(q.hdrOk => ~hdr.pad, <<"C10">>, "Tx.NotPadding")
-        \cup V(q.hdrOk /\ ~hdr.pad => hdr.len + 2 = r.len, <<"C06">>, "Tx.GseLenIsWritten")
-        \cup V(q.lenOk => kindOk, <<"C06">>, "Tx.StartEndBits")
-        \cup V(kindOk => w.ok, <<"C06">>, "Tx.Parses")
+        \* a packet that does not read back as what the status says cannot round-trip (C01 / C02) and carries no
+        \* countable payload (C11)
+        \cup V(q.hdrOk /\ ~hdr.pad => hdr.len + 2 = r.len, WFT, "Tx.GseLenIsWritten")
+        \cup V(q.lenOk => kindOk, WFT, "Tx.StartEndBits")
+        \cup V(kindOk => w.ok, WFT, "Tx.Parses")
         \cup V(ltOk, <<"C06">>, "Tx.LabelTypeBits")
         \cup V(fieldsOk, IF isExt THEN <<"C06", "C13">> ELSE <<"C06">>, "Tx.Fields")
         \cup V(tlOk, <<"C06">>, "Tx.TotalLength")
@@ -183,9 +186,9 @@ JudgeFragQ(e, q) ==
         \cup V(ok => Len(wire) = r.len, <<"C06">>, "Frag.LenWithinBuffer")
         \cup V(ok => e.tail_ok, <<"C06">>, "Frag.TailUntouched")
         \cup V(q.hdrOk => ~hdr.pad, <<"C10">>, "Frag.NotPadding")
-        \cup V(q.hdrOk /\ ~hdr.pad => hdr.len + 2 = r.len, <<"C06">>, "Frag.GseLenIsWritten")
-        \cup V(q.lenOk => kindOk, <<"C06">>, "Frag.StartEndBits")
-        \cup V(kindOk => wf, <<"C06">>, "Frag.Parses")
+        \cup V(q.hdrOk /\ ~hdr.pad => hdr.len + 2 = r.len, <<"C06", "C02", "C11">>, "Frag.GseLenIsWritten")
+        \cup V(q.lenOk => kindOk, <<"C06", "C02", "C11">>, "Frag.StartEndBits")
+        \cup V(kindOk => wf, <<"C06", "C02", "C11">>, "Frag.Parses")
         \* C11: a successful continuation call emits the final CRC-bearing packet or an intermediate packet
         \cup V(ok /\ inRange /\ ~mustRej => wf, <<"C11">>, "Frag.OkIsEndOrIntermediate")
         \cup V(wf => w.fragId = c.id, <<"C06">>, "Frag.FragId")
